@@ -15,50 +15,7 @@ EXPLANATION = (
     'client: the public API) must hold a common lock. Decides lifecycle shape and lock discipline, not behaviour under every schedule.')
 
 
-def result_dropped(F, call, var, sinks_pred):
-    """Paths from the definition `var = call` on which the value is neither consumed by a sink nor tested falsy before it is
-    overwritten or the function exits. Returns a list of human-readable path descriptions (empty = never dropped)."""
-    cfg = build_cfg(F)
-    start = cfg.node_of(call)
-    bad = []
-    seen = set()
-    work = [(start.id, [start])]
-    while work:
-        nid, path = work.pop()
-        for y, lab in cfg.succ[nid]:
-            node = cfg.nodes[y]
-            src = cfg.nodes[nid]
-            # leaving a test of the variable on its falsy side: nothing to report
-            if src.kind == 'test' and src.id != start.id:
-                c = q.canon_atom(src.ast)
-                if c and c[0] == 'truthy' and c[1] == var:
-                    falsy_edge = (lab == 'F') == c[3]
-                    if falsy_edge:
-                        continue
-                if c and c[0] == 'is' and c[1] == var and c[2] == 'None':
-                    if (lab == 'T') == c[3]:
-                        continue
-            if node.kind == 'exit':
-                bad.append(' -> '.join('L%d' % p.lineno for p in path if p.lineno) + ' -> exit')
-                continue
-            if node.kind == 'raise':
-                continue
-            if node.ast is not None and sinks_pred(node):
-                continue
-            # redefinition kills the value
-            st = node.ast
-            if isinstance(st, ast.Assign) and any(isinstance(t, ast.Name) and t.id == var for t in st.targets) and node.id != start.id:
-                bad.append(' -> '.join('L%d' % p.lineno for p in path if p.lineno) + ' -> overwritten at L%d' % node.lineno)
-                continue
-            if node.id == start.id:
-                bad.append(' -> '.join('L%d' % p.lineno for p in path if p.lineno) + ' -> overwritten at L%d' % node.lineno)
-                continue
-            key = (y,)
-            if key in seen:
-                continue
-            seen.add(key)
-            work.append((y, path + [node]))
-    return bad
+from ..q import result_dropped
 
 
 def check(run):
@@ -95,9 +52,34 @@ def check(run):
     apps = [c for c in q.calls(E) if acc and q.unparse(c.func) == acc + '.append']
     run.check(len(apps) == 1, r, ei.short, 'one append site', 'found %d' % len(apps), E)
     # execute_all decides whether the cycle goes on
-    brk = [n for n in q.walk(E) if isinstance(n, ast.Break)]
-    run.check(len(brk) == 1 and guard_atoms(brk[0], stop=q.enclosing(brk[0], ast.While)) == [('falsy', 'self._execute_all', '')], r, ei.short,
-              'one step per cycle unless execute_all', 'condition is %s' % [guard_atoms(b) for b in brk], E)
+    # after a step was appended, another execute_once() is reachable only through the truthy side of a test of self._execute_all
+    cfg = build_cfg(E)
+    okk = bool(apps) and len(calls) >= 1
+    for ap in apps:
+        an = cfg.node_of(ap)
+        for c in calls:
+            cn = cfg.node_of(c)
+            # search paths an ->+ cn that never take the truthy edge of an `_execute_all` test
+            seen = set()
+            work = [an.id]
+            while work:
+                x = work.pop()
+                for y, lab in cfg.succ[x]:
+                    src = cfg.nodes[x]
+                    if src.kind == 'test':
+                        cc = q.canon_atom(src.ast)
+                        if cc and cc[0] == 'truthy' and cc[1] == 'self._execute_all' and ((lab == 'T') == cc[3]):
+                            continue      # this edge establishes execute_all
+                    if y == cn.id:
+                        okk = False
+                    if y in seen:
+                        continue
+                    seen.add(y)
+                    work.append(y)
+    # and with execute_all the cycle does go on: some path append ->+ execute_once exists
+    goes_on = any(cfg.reaches(cfg.node_of(ap), cfg.node_of(c)) for ap in apps for c in calls)
+    run.check(okk and goes_on, r, ei.short, 'one step per cycle unless execute_all',
+              'after reporting a step another execute_once() is reachable without execute_all being set (or never reachable at all)', E)
     init = run.fn('AsyncRunner.__init__')
     run.check(q.param_defaults(init.node).get('execute_all') is False, r, init.short, 'execute_all defaults to False', 'differs', init.node)
     iv = [n for n in q.walk(init.node) if isinstance(n, ast.Assign) and q.unparse(n.targets[0]) == 'self._execute_all']
